@@ -316,8 +316,11 @@ def gen_c12(ctx, n):
             for _k in range(rng.choice([1, 2])):
                 i = rng.choice([q[1] for q in qobjs if q[1] < nb] + [rng.randrange(nb)])
                 ops2.append([15, i])
-                if kb[i][0] == 0 and rng.random() < 0.6:
-                    g = rng.choice(all_gnds(kb[i][3], nconst))
+                known = [tuple(r[0]) for j, d in data if j == i for r in d]
+                if kb[i][0] == 0 and known and rng.random() < 0.6:
+                    # only groundings that are known instances already: a quantifier declared fully_grounded has been told
+                    # that its instances are complete, a NEW instance afterwards breaks that declaration, not the library
+                    g = rng.choice(known)
                     x = hidden[(i, g)]
                     ops2.append([8, i, [[list(g), [rng.choice([v for v in gen_fol.G8 if v <= x]), rng.choice([v for v in gen_fol.G8 if v >= x])]]]])
             ops2 += [[21, qi] for qi in range(len(qobjs)) if qobjs[qi][1] < nb]
